@@ -45,4 +45,44 @@ theorem eval_eq_fin_sum (P : F[X]) (t : ℕ) (h : P.natDegree < t) (x : F) :
   exact Finset.sum_congr rfl fun j _ => mul_comm _ _
 
 
+/-- `t` columns of Vandermonde rows at distinct non-zero nodes span `e₀` iff there are at least `t` rows -/
+theorem vandermonde_accepts_iff (t : ℕ) (ht : 0 < t) (S : Finset ℕ)
+    (hid : Set.InjOn (Nat.cast : ℕ → F) S) (h0 : ∀ i ∈ S, (i : F) ≠ 0) :
+    (∃ c : S → F, c ᵥ* vandermondeRows t S = Pi.single ⟨0, ht⟩ 1) ↔ t ≤ S.card := by
+  constructor
+  · rintro ⟨c, hc⟩
+    by_contra hlt
+    push Not at hlt
+    let P : F[X] := killPoly S
+    let k : Fin t → F := fun j => P.coeff j
+    have hdeg : P.natDegree < t := lt_of_le_of_lt (killPoly_natDegree S) hlt
+    have hker : vandermondeRows t S *ᵥ k = 0 := by
+      ext i
+      simp only [mulVec, dotProduct, vandermondeRows, Pi.zero_apply, k]
+      rw [eval_eq_fin_sum P t hdeg, killPoly_eval_node S h0 i i.2]
+    have h1 : (c ᵥ* vandermondeRows t S) ⬝ᵥ k = 1 := by
+      rw [hc, single_one_dotProduct]
+      simp only [k]
+      rw [coeff_zero_eq_eval_zero, killPoly_eval_zero]
+    rw [← dotProduct_mulVec, hker, dotProduct_zero] at h1
+    exact zero_ne_one h1
+  · intro hle
+    obtain ⟨T, hTS, hTc⟩ := Finset.exists_subset_card_eq hle
+    have hidT : Set.InjOn (Nat.cast : ℕ → F) T := hid.mono fun x hx => hTS hx
+    refine ⟨fun i => if (i : ℕ) ∈ T then (Lagrange.basis T (Nat.cast : ℕ → F) i).eval 0 else 0, ?_⟩
+    ext j
+    simp only [vecMul, dotProduct, vandermondeRows]
+    rw [Finset.sum_coe_sort S (fun i => (if i ∈ T then (Lagrange.basis T (Nat.cast : ℕ → F) i).eval 0 else 0) * (i : F) ^ (j : ℕ))]
+    simp only [ite_mul, zero_mul]
+    rw [← Finset.sum_filter, Finset.filter_mem_eq_inter, Finset.inter_eq_right.mpr hTS]
+    have := lagrange_zero_sum T hidT (X ^ (j : ℕ)) (by
+      rw [degree_X_pow, hTc]; exact_mod_cast j.2)
+    simp only [eval_pow, eval_X] at this
+    rw [this]
+    rcases j with ⟨j, hj⟩
+    cases j with
+    | zero => simp
+    | succ n => simp [Fin.ext_iff]
+
+
 end BronVerif.Lemmas.SharingPoly
